@@ -84,8 +84,10 @@ class PopulationBalanceModel:
 
         #Hidden variable for use in KWNEuler when adaptive time stepping is enabled
         #This allows for PSD to revert to its previous value if a time constraint is not met
+        #Until a backup is created, the backup is the empty distribution on the current size classes
+        #   (all-zero bounds would leave the size classes invalid if revert is called before createBackup)
         self._prevPSD = np.zeros(self.bins)
-        self._prevPSDbounds = np.zeros(self.bins+1)
+        self._prevPSDbounds = np.array(self.PSDbounds)
 
         #Temporary storage for net flux
         #This is used to correct the fluxes once the time step is known
